@@ -1103,7 +1103,10 @@ def _expand_stars(
                     continue
 
             for name in columns:
-                if name in columns_to_exclude or name in coalesced_columns:
+                if name in columns_to_exclude or (
+                    # A coalesced USING column is only hidden in the sources that take part in that join
+                    name in coalesced_columns and table in using_column_tables.get(name, ())
+                ):
                     continue
                 if ilike_pattern and not re.fullmatch(ilike_pattern, name, re.IGNORECASE):
                     continue
